@@ -128,6 +128,92 @@ class DictMembership(ast.NodeTransformer):
         return node
 
 
+class DictUpdate(ast.NodeTransformer):
+    """The statement `d.update(k1=v1, k2=v2)` / `d.update({"k1": v1, "k2": v2})` on a local name  ->  `d["k1"] = v1; d["k2"] = v2`
+    (the same stores in the same order; not applied when a value reads `d` itself, since update evaluates every value first)."""
+    def visit_Expr(self, node):
+        self.generic_visit(node)
+        c = node.value
+        if not (isinstance(c, ast.Call) and isinstance(c.func, ast.Attribute) and c.func.attr == "update" and isinstance(c.func.value, ast.Name)):
+            return node
+        d = c.func.value.id
+        pairs = None
+        if not c.args and c.keywords and all(k.arg is not None for k in c.keywords):
+            pairs = [(ast.Constant(k.arg), k.value) for k in c.keywords]
+        elif len(c.args) == 1 and not c.keywords and isinstance(c.args[0], ast.Dict) and c.args[0].keys \
+                and all(isinstance(k, ast.Constant) and isinstance(k.value, str) for k in c.args[0].keys):
+            pairs = list(zip(c.args[0].keys, c.args[0].values))
+        if not pairs or any(isinstance(x, ast.Name) and x.id == d for _, v in pairs for x in ast.walk(v)):
+            return node
+        out = []
+        for k, v in pairs:
+            st = ast.Assign([ast.Subscript(ast.Name(d, ast.Load()), k, ast.Store())], v)
+            out.append(ast.fix_missing_locations(ast.copy_location(st, node)))
+        return out
+
+
+class TakeWhile(ast.NodeTransformer):
+    """`for x in takewhile(pred, seq): body`  ->  `for x in seq: if not pred(x): break; body`   (no else clause; a lambda predicate is
+    applied by the evaluator)."""
+    def visit_For(self, node):
+        self.generic_visit(node)
+        it = node.iter
+        if isinstance(it, ast.Call) and ast.unparse(it.func) in ("takewhile", "itertools.takewhile") and len(it.args) == 2 and not it.keywords \
+                and isinstance(node.target, ast.Name) and not node.orelse:
+            test = ast.UnaryOp(ast.Not(), ast.Call(it.args[0], [ast.Name(node.target.id, ast.Load())], []))
+            brk = ast.If(test, [ast.Break()], [])
+            node.iter = it.args[1]
+            node.body = [ast.copy_location(brk, node.body[0])] + node.body
+            ast.fix_missing_locations(node)
+        return node
+
+
+class NestedCompToLoop(ast.NodeTransformer):
+    """`t = [E for a in A for b in B if c]` (two or more generators, bound to a local name)  ->
+    `t = []` / `for a in A: for b in B: if c: t.append(E)`  - the nested loop it abbreviates.  Only when the comprehension's own variables
+    are used nowhere else in the function (they would leak into it otherwise)."""
+    def visit_FunctionDef(self, node):
+        self.generic_visit(node)
+        counts = {}
+        for n in ast.walk(node):
+            if isinstance(n, ast.Name):
+                counts[n.id] = counts.get(n.id, 0) + 1
+            elif isinstance(n, ast.arg):
+                counts[n.arg] = counts.get(n.arg, 0) + 1
+
+        def rewrite(stmts):
+            out = []
+            for st in stmts:
+                for fld in ("body", "orelse", "finalbody"):
+                    b = getattr(st, fld, None)
+                    if isinstance(b, list) and b and isinstance(b[0], ast.stmt) and not isinstance(st, (ast.FunctionDef, ast.ClassDef, ast.AsyncFunctionDef)):
+                        setattr(st, fld, rewrite(b))
+                for h in getattr(st, "handlers", []) or []:
+                    h.body = rewrite(h.body)
+                if isinstance(st, ast.Assign) and len(st.targets) == 1 and isinstance(st.targets[0], ast.Name) and isinstance(st.value, ast.ListComp) \
+                        and len(st.value.generators) >= 2 and not any(g.is_async for g in st.value.generators):
+                    comp = st.value
+                    inner = {}
+                    for n in ast.walk(comp):
+                        if isinstance(n, ast.Name):
+                            inner[n.id] = inner.get(n.id, 0) + 1
+                    own = {n.id for g in comp.generators for n in ast.walk(g.target) if isinstance(n, ast.Name)}
+                    tname = st.targets[0].id
+                    if all(counts.get(v, 0) == inner.get(v, 0) for v in own) and tname not in inner:
+                        body = [ast.Expr(ast.Call(ast.Attribute(ast.Name(tname, ast.Load()), "append", ast.Load()), [comp.elt], []))]
+                        for g in reversed(comp.generators):
+                            for c in reversed(g.ifs):
+                                body = [ast.If(c, body, [])]
+                            body = [ast.For(g.target, g.iter, body, [], None)]
+                        new = [ast.Assign([ast.Name(tname, ast.Store())], ast.List([], ast.Load()))] + body
+                        out.extend(ast.fix_missing_locations(ast.copy_location(x, st)) for x in new)
+                        continue
+                out.append(st)
+            return out
+        node.body = rewrite(node.body)
+        return node
+
+
 class DotToLoop(ast.NodeTransformer):
     """`t = [k *] np.dot(A[a:b], B[a:b])` (np.vdot conjugates its first operand) over one-dimensional slices is the sum it stands for:
 
@@ -227,6 +313,9 @@ class DotToLoop(ast.NodeTransformer):
 
 def normalise(tree):
     tree = DictMembership().visit(tree)
+    tree = DictUpdate().visit(tree)
+    tree = TakeWhile().visit(tree)
+    tree = NestedCompToLoop().visit(tree)
     tree = DotToLoop().visit(tree)
     tree = _BoundFormat().visit(tree)
     tree = FormatToFString().visit(tree)
